@@ -111,6 +111,28 @@ def run(ctx):
                 got = [i for i, _ in spy["log"]]
                 if got != [i for i, _ in want]:
                     ctx.violation(f"file-cadence:every={every}", f"file callback invoked at {got}, cadence dictates {want}", {"cfg": cfg, "every": every})
+                # a checkpoint FILE and a user callback together ("If using checkpoint_callback, this can be used to specify a file path to
+                # save checkpoints to"): the callback receives the payloads AND the file holds the latest one
+                if fi == 0:
+                    got_states = []
+                    upath = os.path.join(d, common.ckpt_name("usercb", 0))
+                    ru = sr.aspire_file_run(cfg, upath, every=every, extra_kwargs={"checkpoint_callback": got_states.append})
+                    ctx.count((cfg["seed"], every, "file+callback"), True, kind="file-cadence/file-and-user-callback")
+                    blobu = None
+                    if os.path.exists(upath):
+                        with h5py.File(upath, "r") as f:
+                            blobu = f["checkpoint"]["state"][...].tobytes() if "checkpoint" in f and "state" in f["checkpoint"] else None
+                    if ru.error is None and got_states:
+                        it_file = None
+                        try:
+                            it_file = pickle.loads(blobu)["iteration"] if blobu is not None else None
+                        except Exception:
+                            pass
+                        if it_file != got_states[-1]["iteration"]:
+                            ctx.violation("file-and-user-callback:no-checkpoint-in-file", f"sample_posterior(checkpoint_path=file, checkpoint_callback=cb): the callback received "
+                                          f"{len(got_states)} payloads (last: iteration {got_states[-1]['iteration']}) but the file holds "
+                                          f"{'no checkpoint' if blobu is None else 'the checkpoint of iteration ' + str(it_file)}", {"cfg": cfg, "every": every})
+                    spy["log"] = []
                 # the cadence asked for in the sampling call, the file taken from an enclosing auto_checkpoint(path) context
                 if every != 1:
                     spy["log"] = []
